@@ -15,11 +15,13 @@ def run(tier):
         depth = 4
         extra = [(QUICK_CFGS(), 5)]      # depth 5 on the quick configuration set, depth 4 on the full set: sized to finish (see vfsrun.DEADLINE)
     deep = (vfsrun.cfgs([5], [0, 3], range(8)), 6) if tier == 'quick' else (cfgs, 7)
+    lag = (vfsrun.cfgs([5], [0, 3], [2, 3, 6, 7]) + vfsrun.cfgs([8], [0], [2]), 5 if tier == "quick" else 6)
     return vfsrun.hist_check(
-        PROP, tier, cfgs, depth, extra_groups=extra,
+        PROP, tier, cfgs, depth, extra_groups=extra, lag=lag,
         rule="every operation history up to the depth bound over records of framed size {1,L-1,L,L+1,L+2}, multi-byte (2-byte UTF-8) records of 3 and 5 bytes, a record with an "
              "embedded LF, day changes and restarts, for each size limit L and option set; after every operation each file the sink wrote (rotated files decompressed) is "
-             "located in the written stream and must be <= L bytes or hold exactly one record; states = distinct (directory contents, day, records written)",
+             "located in the written stream and must be <= L bytes or hold exactly one record; a further family adds LAGGING records (message created on the previous day, sent now - an asynchronous "
+             "backlog across midnight) under daily rotation: dates are then not monotonic and rotated names of an earlier date come up again; states = distinct (directory contents, day, records written)",
         deep=deep, assumptions=vfsrun.COMMON_ASSUMPTIONS + ["file-count limit 1 (rotation disabled) is outside the property"])
 
 
